@@ -102,10 +102,6 @@ func run(r *core.Run) {
 	r.Assume("semantic oracle: programs are built from deterministic, side effect free constructs (no calls of input/inputs/env/now/halt/display); reference = direct evaluation of the unmodified program text by an fq interpreter session (same builtins, no rewrite) on the same input values; values are compared as canonical JSON")
 	r.Assume("a command line run that does not return within 40 s is inconclusive (counted, never an alarm)")
 	t0 := time.Now()
-	if os.Getenv("VERIF_ONLY") == "bench" {
-		bench()
-		return
-	}
 	g := genFor(setFull)
 	r.Extra("constructs", len(g.prods))
 	r.Extra("atoms", len(g.atoms))
